@@ -860,6 +860,9 @@ func startHist(i int) []uint8 {
 func poolFamily(poolKind string, depth, budget int) *core.Family {
 	size := uint64(len(startNames)) * nEvents * nEvents
 	get := func(i uint64) (int, []uint8) {
+		// a capped run visits shards spread over the whole index space
+		// (fixed bijection, no randomness)
+		i = scramble(i, size)
 		st := int(i % uint64(len(startNames)))
 		i /= uint64(len(startNames))
 		e2 := uint8(i % nEvents)
@@ -887,13 +890,30 @@ func poolFamily(poolKind string, depth, budget int) *core.Family {
 	}
 }
 
+// scramble is a fixed bijection of [0,size) (multiplication by a constant
+// coprime to size).
+func scramble(i, size uint64) uint64 {
+	m := uint64(2654435761)
+	for gcd(m, size) != 1 {
+		m += 2
+	}
+	return (i % size) * (m % size) % size
+}
+
+func gcd(a, b uint64) uint64 {
+	for b != 0 {
+		a, b = b, a%b
+	}
+	return a
+}
+
 func partAFamilies(tier string) []*core.Family {
 	if tier == "thorough" {
 		return []*core.Family{
 			poolFamily("clone", 7, 170),
 			poolFamily("unsafe", 7, 170),
-			poolFamily("clone", 8, 170),
-			poolFamily("unsafe", 8, 170),
+			poolFamily("clone", 8, 120),
+			poolFamily("unsafe", 8, 120),
 		}
 	}
 	return []*core.Family{
